@@ -53,6 +53,106 @@ var targets = []target{
 	{"node/kafkaconsumer/kafkaconsumer.go", "KafkaConsumer", "processEvent", "kafkaProcessEvent"},
 }
 
+// full-statement targets: the functions the op-sequence / decision models (recovery, tracker, offsets, receiver, sender,
+// routing, config, elasticsearch sink, producers, parameters) were transcribed from.  Every statement is kept verbatim
+// (normalised whitespace); only logging statements are dropped.  Written to Generated/Source.lean.
+var fullTargets = []target{
+	// C06
+	{"node/kafkaconsumer/kafkaconsumer.go", "KafkaConsumer", "retryAssignPartitions", "retryAssignPartitions"},
+	{"node/kafkaconsumer/kafkaconsumer.go", "KafkaConsumer", "assignPartitions", "assignPartitions"},
+	{"node/kafkaconsumer/kafkaconsumer.go", "KafkaConsumer", "calculateAssignmentOffsets", "calculateAssignmentOffsets"},
+	{"node/kafkaconsumer/kafkaconsumer.go", "KafkaConsumer", "offsetForPartition", "offsetForPartition"},
+	{"node/kafkaconsumer/recoveryconsumer.go", "RecoveryConsumer", "RequestRecovery", "requestRecovery"},
+	// C07 / C09 / C19
+	{"node/kafkaconsumer/recoveryconsumer.go", "", "NewRecoveryConsumer", "newRecoveryConsumer"},
+	{"node/kafkaconsumer/recoveryconsumer.go", "RecoveryConsumer", "handleEvents", "rcHandleEvents"},
+	{"node/kafkaconsumer/recoveryconsumer.go", "RecoveryConsumer", "processEvent", "rcProcessEvent"},
+	{"node/kafkaconsumer/recoveryconsumer.go", "RecoveryConsumer", "processError", "rcProcessError"},
+	{"node/kafkaconsumer/recoveryconsumer.go", "RecoveryConsumer", "recoverSingleEvent", "rcRecoverSingleEvent"},
+	{"node/kafkaconsumer/recoveryconsumer.go", "RecoveryConsumer", "RefreshAssignments", "refreshAssignments"},
+	{"node/kafkaconsumer/recoveryconsumer.go", "RecoveryConsumer", "partitionAssignmentsChanged", "partitionAssignmentsChanged"},
+	{"node/kafkaconsumer/recoveryconsumer.go", "RecoveryConsumer", "setActivePartitionMap", "setActivePartitionMap"},
+	{"node/kafkaconsumer/recoveryconsumer.go", "RecoveryConsumer", "SetAssignedPartitions", "setAssignedPartitions"},
+	{"node/kafkaconsumer/kafkaconsumer.go", "KafkaConsumer", "processEvent", "kcProcessEvent"},
+	{"node/kafkaconsumer/kafkaconsumer.go", "KafkaConsumer", "revokePartitionAssignments", "revokePartitionAssignments"},
+	{"node/kafkaconsumer/kafkaconsumer.go", "KafkaConsumer", "Receive", "kcReceive"},
+	// C08
+	{"node/kafkaconsumer/recoverytracker.go", "RecoveryTracker", "GetRecoveryRequest", "getRecoveryRequest"},
+	{"node/kafkaconsumer/recoverytracker.go", "RecoveryTracker", "AddRecoveryRequest", "addRecoveryRequest"},
+	{"node/kafkaconsumer/recoverytracker.go", "RecoveryTracker", "UpdateRecoveryRequest", "updateRecoveryRequest"},
+	{"node/kafkaconsumer/recoverytracker.go", "RecoveryTracker", "MarkRecoveryComplete", "markRecoveryComplete"},
+	{"node/kafkaconsumer/recoverytracker.go", "RecoveryTracker", "cancelAll", "cancelAll"},
+	{"node/kafkaconsumer/recoverytracker.go", "RecoveryTracker", "sendRecoveryRequests", "sendRecoveryRequests"},
+	{"node/kafkaconsumer/recoverytracker.go", "RecoveryTracker", "receiveRequest", "receiveRequest"},
+	{"node/kafkaconsumer/recoverytracker.go", "type", "RecoveryRequest", "tyRecoveryRequest"},
+	{"node/kafkaconsumer/recoverytracker.go", "type", "RecoveryRequests", "tyRecoveryRequests"},
+	{"node/kafkaconsumer/recoverytracker.go", "", "max", "trackerMax"},
+	{"node/kafkaconsumer/recoverytracker.go", "", "min", "trackerMin"},
+	// C10 / C12
+	{"message/kakfamessagereceiver.go", "KafkaMessageReceiver", "handleEvents", "mrHandleEvents"},
+	{"message/kakfamessagereceiver.go", "KafkaMessageReceiver", "buildPartitionAssignments", "mrBuildPartitionAssignments"},
+	{"message/kakfamessagereceiver.go", "KafkaMessageReceiver", "processEvent", "mrProcessEvent"},
+	{"message/kakfamessagereceiver.go", "KafkaMessageReceiver", "processMessage", "mrProcessMessage"},
+	{"message/kakfamessagereceiver.go", "KafkaMessageReceiver", "deliverMessage", "mrDeliverMessage"},
+	{"message/kakfamessagereceiver.go", "KafkaMessageReceiver", "processInitBuffer", "mrProcessInitBuffer"},
+	{"message/kafkamessagesender.go", "KafkaMessageSender", "Send", "msSend"},
+	{"message/kafkamessagesender.go", "KafkaMessageSender", "Ack", "msAck"},
+	{"message/kafkamessagesender.go", "KafkaMessageSender", "produceMessage", "msProduceMessage"},
+	{"message/kafkamessagewire.go", "", "uniqueKey", "msgUniqueKey"},
+	{"message/kafkamessagewire.go", "type", "wireMessage", "tyWireMessage"},
+	{"message/message.go", "type", "Message", "tyMessage"},
+	// C11
+	{"executor/message.go", "Executor", "deliverMessage", "exDeliverMessage"},
+	{"executor/message.go", "Executor", "deliverMessageToNode", "exDeliverMessageToNode"},
+	{"executor/message.go", "errorList", "addError", "exAddError"},
+	{"executor/message.go", "", "newContextMessage", "exNewContextMessage"},
+	{"fbcontext/fbcontext.go", "ContextAware", "Subscribe", "ctxSubscribe"},
+	{"fbcontext/fbcontext.go", "ContextAware", "AcceptsMessage", "ctxAcceptsMessage"},
+	// C13
+	{"config/config.go", "", "Read", "cfgRead"},
+	{"config/config.go", "", "validate", "cfgValidate"},
+	{"config/config.go", "", "validateInternalDataConfig", "cfgValidateInternalData"},
+	{"config/config.go", "", "validateSourceConfig", "cfgValidateSource"},
+	{"config/config.go", "", "validateUniqueID", "cfgValidateUniqueID"},
+	{"config/config.go", "", "validateNodeConfig", "cfgValidateNode"},
+	{"config/config.go", "", "validateErrorHandlerConfig", "cfgValidateErrorHandler"},
+	{"config/config.go", "", "setDefaults", "cfgSetDefaults"},
+	{"config/config.go", "", "assignNodeConfigDefaults", "cfgAssignNodeDefaults"},
+	// C14
+	{"node/elasticsearch/elastic_index_client.go", "ElasticIndexClient", "Send", "esSend"},
+	{"node/elasticsearch/elastic_index_client.go", "ElasticIndexClient", "Run", "esRun"},
+	{"node/elasticsearch/elastic_index_client.go", "ElasticIndexClient", "Stop", "esStop"},
+	{"node/elasticsearch/elastic_index_client.go", "ElasticIndexClient", "batch", "esBatch"},
+	{"node/elasticsearch/elastic_index_client.go", "ElasticIndexClient", "retryBulkIndex", "esRetryBulkIndex"},
+	{"node/elasticsearch/elastic_index_client.go", "ElasticIndexClient", "doBulkIndex", "esDoBulkIndex"},
+	{"node/elasticsearch/elastic_index_client.go", "ElasticIndexClient", "handleErrorResponses", "esHandleErrorResponses"},
+	{"node/elasticsearch/elasticsearch.go", "Elasticsearch", "ProcessAsync", "esProcessAsync"},
+	{"node/elasticsearch/elasticsearch.go", "Elasticsearch", "Shutdown", "esShutdown"},
+	// C15
+	{"node/kafkaproducer/kafkaproducer.go", "KafkaProducer", "Process", "kpProcess"},
+	{"node/kafkaproducer/kafkaproducer.go", "KafkaProducer", "Produce", "kpProduce"},
+	{"node/kafkaproducer/errorproducer.go", "ErrorProducer", "Process", "epProcess"},
+	{"error.go", "EventError", "MarshalJSON", "eventErrorMarshalJSON"},
+	{"error.go", "", "NewEventError", "newEventError"},
+	{"error.go", "", "NewFBError", "newFBError"},
+	{"error.go", "type", "EventError", "tyEventError"},
+	{"error.go", "type", "FBError", "tyFBError"},
+	// C20
+	{"util/util.go", "", "ApplyLibrdkafkaConf", "applyLibrdkafkaConf"},
+	{"node/kafkaconsumer/kafkaconsumer.go", "KafkaConsumer", "buildConfigMap", "kcBuildConfigMap"},
+	{"node/kafkaconsumer/kafkaconsumer.go", "KafkaConsumer", "checkConfig", "kcCheckConfig"},
+	{"node/kafkaconsumer/recoveryconsumer.go", "RecoveryConsumer", "buildConfigMap", "rcBuildConfigMap"},
+	{"message/kakfamessagereceiver.go", "KafkaMessageReceiver", "buildConfigMap", "mrBuildConfigMap"},
+	{"node/kafkaproducer/kafkaproducer.go", "KafkaProducer", "buildConfigMap", "kpBuildConfigMap"},
+	{"node/kafkaproducer/kafkaproducer.go", "KafkaProducer", "checkConfig", "kpCheckConfig"},
+	{"helpers.go", "Nodeconfig", "IntConfig", "hIntConfig"},
+	{"helpers.go", "Nodeconfig", "IntConfigRequired", "hIntConfigRequired"},
+	{"helpers.go", "Nodeconfig", "StringConfig", "hStringConfig"},
+	{"helpers.go", "Nodeconfig", "StringConfigRequired", "hStringConfigRequired"},
+	{"helpers.go", "Nodeconfig", "Float64Config", "hFloat64Config"},
+	{"helpers.go", "Nodeconfig", "Float64ConfigRequired", "hFloat64ConfigRequired"},
+}
+
 var fset = token.NewFileSet()
 
 func exprString(e ast.Node) string {
@@ -77,7 +177,16 @@ func ignoredCall(s string) bool {
 }
 
 type walker struct {
-	out []instr
+	out  []instr
+	full bool // every statement verbatim (only logging dropped)
+}
+
+func isLogStmt(e ast.Expr) bool {
+	c, ok := e.(*ast.CallExpr)
+	if !ok {
+		return false
+	}
+	return strings.HasPrefix(exprString(c.Fun), "log.")
 }
 
 func (w *walker) emit(d int, op, arg string) { w.out = append(w.out, instr{d, op, arg}) }
@@ -147,6 +256,27 @@ func (w *walker) block(d int, b *ast.BlockStmt) {
 }
 
 func (w *walker) stmt(d int, s ast.Stmt) {
+	if w.full {
+		switch x := s.(type) {
+		case *ast.ExprStmt:
+			if !isLogStmt(x.X) {
+				w.emit(d, "stmt", exprString(x))
+			}
+			return
+		case *ast.AssignStmt:
+			w.emit(d, "assign", exprString(x))
+			return
+		case *ast.DeclStmt:
+			w.emit(d, "decl", exprString(x))
+			return
+		case *ast.GoStmt:
+			w.emit(d, "go", exprString(x.Call))
+			return
+		case *ast.DeferStmt:
+			w.emit(d, "defer", exprString(x.Call))
+			return
+		}
+	}
 	switch x := s.(type) {
 	case *ast.ExprStmt:
 		w.exprCalls(d, x.X)
@@ -321,42 +451,66 @@ func main() {
 	repo := flag.String("repo", "/repo", "repository root")
 	out := flag.String("out", "", "output directory")
 	flag.Parse()
+	parsed := map[string]*ast.File{}
+	render := func(sb *strings.Builder, ts []target, full bool) {
+		for _, t := range ts {
+			f, ok := parsed[t.file]
+			if !ok {
+				var err error
+				f, err = parser.ParseFile(fset, filepath.Join(*repo, t.file), nil, 0)
+				if err != nil {
+					fmt.Fprintln(os.Stderr, "parse error:", err)
+					os.Exit(1)
+				}
+				parsed[t.file] = f
+			}
+			var found *ast.FuncDecl
+			for _, d := range f.Decls {
+				if fd, ok := d.(*ast.FuncDecl); ok && fd.Name.Name == t.name && recvName(fd) == t.recv {
+					found = fd
+				}
+			}
+			w := &walker{full: full}
+			if t.recv == "type" {
+				// a type declaration (field names, types and struct tags), verbatim
+				w.emit(0, "missing", "type "+t.name)
+				for _, d := range f.Decls {
+					if gd, ok := d.(*ast.GenDecl); ok && gd.Tok == token.TYPE {
+						for _, sp := range gd.Specs {
+							if ts, ok := sp.(*ast.TypeSpec); ok && ts.Name.Name == t.name {
+								w.out = nil
+								w.emit(0, "type", exprString(ts.Type))
+							}
+						}
+					}
+				}
+			} else if found == nil {
+				w.emit(0, "missing", t.recv+"."+t.name)
+			} else {
+				if full {
+					// the signature is part of what the model was transcribed from (named results, receiver kind)
+					w.emit(0, "func", exprString(found.Type))
+				}
+				w.block(0, found.Body)
+			}
+			fmt.Fprintf(sb, "def %s : List Instr := [\n", t.lean)
+			for i, in := range w.out {
+				sep := ","
+				if i == len(w.out)-1 {
+					sep = ""
+				}
+				fmt.Fprintf(sb, "  ⟨%d, %s, %s⟩%s\n", in.depth, leanStr(in.op), leanStr(in.arg), sep)
+			}
+			sb.WriteString("]\n\n")
+		}
+	}
+	var src strings.Builder
+	src.WriteString("import Firebolt.Skeleton\n/-! GENERATED by /verif/extractor from /repo's sources on every run. Do not edit. -/\nnamespace Firebolt.GeneratedSrc\nopen Firebolt.Skeleton\n\n")
+	render(&src, fullTargets, true)
+	src.WriteString("end Firebolt.GeneratedSrc\n")
 	var sb strings.Builder
 	sb.WriteString("import Firebolt.Skeleton\n/-! GENERATED by /verif/extractor from /repo's sources on every run. Do not edit. -/\nnamespace Firebolt.Generated\nopen Firebolt.Skeleton\n\n")
-	parsed := map[string]*ast.File{}
-	for _, t := range targets {
-		f, ok := parsed[t.file]
-		if !ok {
-			var err error
-			f, err = parser.ParseFile(fset, filepath.Join(*repo, t.file), nil, 0)
-			if err != nil {
-				fmt.Fprintln(os.Stderr, "parse error:", err)
-				os.Exit(1)
-			}
-			parsed[t.file] = f
-		}
-		var found *ast.FuncDecl
-		for _, d := range f.Decls {
-			if fd, ok := d.(*ast.FuncDecl); ok && fd.Name.Name == t.name && recvName(fd) == t.recv {
-				found = fd
-			}
-		}
-		w := &walker{}
-		if found == nil {
-			w.emit(0, "missing", t.recv+"."+t.name)
-		} else {
-			w.block(0, found.Body)
-		}
-		fmt.Fprintf(&sb, "def %s : List Instr := [\n", t.lean)
-		for i, in := range w.out {
-			sep := ","
-			if i == len(w.out)-1 {
-				sep = ""
-			}
-			fmt.Fprintf(&sb, "  ⟨%d, %s, %s⟩%s\n", in.depth, leanStr(in.op), leanStr(in.arg), sep)
-		}
-		sb.WriteString("]\n\n")
-	}
+	render(&sb, targets, false)
 	// facts: every mention of the rate limiter in package kafkaconsumer (function ↦ expression), and its construction
 	var uses []string
 	dir := filepath.Join(*repo, "node/kafkaconsumer")
@@ -410,7 +564,12 @@ func main() {
 	sb.WriteString("]\n\nend Firebolt.Generated\n")
 	if *out == "" {
 		fmt.Print(sb.String())
+		fmt.Print(src.String())
 		return
+	}
+	if err := os.WriteFile(filepath.Join(*out, "Source.lean"), []byte(src.String()), 0o644); err != nil {
+		fmt.Fprintln(os.Stderr, err)
+		os.Exit(1)
 	}
 	if err := os.WriteFile(filepath.Join(*out, "Skeleton.lean"), []byte(sb.String()), 0o644); err != nil {
 		fmt.Fprintln(os.Stderr, err)
